@@ -17,15 +17,19 @@ EXPLANATION = (
     "sequence and frame counter are extracted from the wire-first byte with exactly the provenance the encoder writes (seq[0:3]@5, frame[0:5]@0), the "
     "announced length is read from the wire-second byte of a frame whose counter is 0; [FP-STRIP] 2 header bytes are stripped from frame 0 and 1 from "
     "later frames (= the encoder's 6/7 capacities with 8-byte frames). [FP-TYPE] is_fast_pgn_<PGN> returns Type=='Fast' for every PGN group and both "
-    "encode and decode consult it through NMEA2000Decoder._isFastPGN. UNDECIDED: that the decoder's reassembly of those frames yields the original "
-    "bytes is a composition argument over the decided clauses plus C04's, not something executed; payloads longer than 223 bytes."
+    "encode and decode consult it through NMEA2000Decoder._isFastPGN. [RA-COUNT]/[RA-DONE]/[RA-ORDER]/[RA-TRUNC]: C04's clauses on counting, completion, order and "
+    "truncation. [FP-ROUNDTRIP] the segmenter's abstract frames are fed in order (byte-reversed, as every front-end does) to _decode_fast_message interpreted "
+    "over the same domain with an abstract buffer map: nothing is delivered before the last frame, then exactly one delivery carries payload[0..L-1], and the "
+    "record is deleted (boundary lengths x counter states in the quick tier, all 224 x 8 in the thorough tier; every branch of the reassembler depends on counters "
+    "and lengths only, so the interpretation is total). UNDECIDED: payloads longer than 223 bytes; delivery through the public entry points with a real PGN's "
+    "field decoder on top (C01/C07)."
 )
 ASSUMPTIONS = ["CPython ast parser", "absint.py transfer functions (bytes concatenation, slicing, bytes([..]), int arithmetic on shape integers)",
                "bitprov.py transfer functions", "frames reach the decoder byte-reversed (C07 FE-ORIENT)"]
 
 def run(chk, program, tier):
     for r, t in (('FP-LEN', 'frame length 1..8'), ('FP-HDR', 'header bytes written'), ('FP-COUNT', 'payload partition exact'), ('FP-SEQ', 'sequence counter advances mod 8'),
-                 ('FP-HDR-DEC', 'decoder header extraction matches'), ('FP-STRIP', 'decoder strips 2 / 1 header bytes'), ('FP-TYPE', 'is_fast per PGN group == database'), ('RA-COUNT', 'completion counts exactly the stored payload bytes'), ('RA-DONE', 'delivered when stored >= announced, not before'),
+                 ('FP-HDR-DEC', 'decoder header extraction matches'), ('FP-STRIP', 'decoder strips 2 / 1 header bytes'), ('FP-TYPE', 'is_fast per PGN group == database'), ('FP-ROUNDTRIP', 'segmenter composed with reassembler in the provenance domain'), ('RA-COUNT', 'completion counts exactly the stored payload bytes'), ('RA-DONE', 'delivered when stored >= announced, not before'),
                  ('RA-ORDER', 'frames concatenated in counter order'), ('RA-TRUNC', 'payload cut to the announced length')):
         chk.rule(r, t)
     fn = program.fn('encoder', 'NMEA2000Encoder._encode_fast_message')
@@ -87,12 +91,76 @@ def run(chk, program, tier):
     chk.unit('abstract_runs', runs)
     chk.floor('abstract_runs', runs, 1792)
     decoder_side(chk, program, fn)
+    # composition segmenter -> reassembler: every length in the thorough tier, the boundary lengths in the quick tier (all counter states for a few)
+    if tier == 'thorough':
+        n = roundtrip(chk, program, fn, range(0, 224), range(8))
+    else:
+        edge = sorted(set(list(range(0, 22)) + [27, 28, 34, 35, 41, 42, 43, 48, 49, 50, 62, 63, 97, 98, 132, 133, 216, 217, 218, 222, 223]))
+        n = roundtrip(chk, program, fn, edge, (0, 7)) + roundtrip(chk, program, fn, (6, 7, 13, 14), range(1, 7))
+    chk.unit('roundtrip_compositions', n)
+    chk.floor('roundtrip_compositions', n, 100)
     n = R.fp_type(chk, program)
     chk.floor('is_fast_functions', n, 270)
     same_isfast(chk, program)
     from .c16 import _Sub
     from .. import rules_decoder as RD
     RD.reassembly(_Sub(chk, {'RA-COUNT', 'RA-DONE', 'RA-ORDER', 'RA-TRUNC'}), program)
+
+def roundtrip(chk, program, encfn, lengths, seqs):
+    """[FP-ROUNDTRIP] composition in the provenance domain: the frames the segmenter produces are handed, in order and byte-reversed as every
+    front-end does (C07 FE-ORIENT), to _decode_fast_message interpreted over the same domain with an abstract buffer map.  All of its branch
+    conditions depend on counters and lengths only (shape), never on payload contents, so the interpretation is total.  Obligations per
+    (length, counter): nothing is handed to the decoder before the last frame; at the last frame exactly one call of
+    _call_decode_function carries payload[0..L-1] (reversed); the record is gone afterwards."""
+    dfn = program.fn('decoder', 'NMEA2000Decoder._decode_fast_message')
+    classes = {'fast_pgn_metadata': program.cls('decoder', 'fast_pgn_metadata')}
+    n = 0
+    for L in lengths:
+        for seq in seqs:
+            selfo = A.AObj(sequence_counter=A.AInt(seq))
+            payload = A.ABytes([A.sym_byte('payload', i) for i in range(L)])
+            try:
+                frames = A.Interp().call_function(encfn, [selfo, A.AInt(None), A.AInt(None), A.AInt(None), A.AInt(None), payload])
+            except A.Unknown as u:
+                chk.unknown('FP-ROUNDTRIP', f"encode@L={L}", str(u), ENC, encfn.lineno); return n
+            delivered = []
+            def hook(it, call, env):
+                name = ast.unparse(call.func)
+                if name == 'self._call_decode_function':
+                    delivered.append([it.expr(a, env) for a in call.args])
+                    return A.AObj(marker=True)
+                return NotImplemented
+            from ..wire import is_logger
+            dec = A.AObj(data=A.ADict())
+            it = A.Interp(hook=hook, skip=is_logger, classes=classes)
+            early = None
+            try:
+                for i, f in enumerate(frames.items):
+                    rev = A.ABytes(list(reversed(f.items)))
+                    r = it.call_function(dfn, [dec, A.AInt(130000), A.AInt(3), A.AInt(1), A.AInt(255), A.AOpaque('ts'), rev, None, A.AOpaque('raw')])
+                    if i < len(frames.items) - 1 and (r is not None or delivered):
+                        early = i
+                        break
+            except (A.Unknown, A.RaiseSignal) as u:
+                chk.unknown('FP-ROUNDTRIP', f"decode@L={L},seq={seq}", str(getattr(u, 'node', u))[:120] if isinstance(u, A.RaiseSignal) else str(u), DEC, dfn.lineno); return n
+            n += 1
+            inst = f"L={L},seq={seq}"
+            want = list(reversed(payload.items))
+            ok = early is None and len(delivered) == 1 and isinstance(delivered[0][5], A.ABytes) and delivered[0][5].items == want and not dec.attrs['data'].items
+            found = 'ok'
+            if not ok:
+                if early is not None:
+                    found = f"a message was returned after frame {early} of {len(frames.items)}"
+                elif len(delivered) != 1:
+                    found = f"{len(delivered)} messages delivered after all {len(frames.items)} frames"
+                elif dec.attrs['data'].items:
+                    found = 'the reassembly record survives delivery'
+                else:
+                    got = delivered[0][5]
+                    found = f"payload of {len(got.items) if isinstance(got, A.ABytes) else '?'} bytes differs from the {L} bytes sent"
+            chk.check(ok, 'FP-ROUNDTRIP', f"segment+reassemble@{inst}", file=DEC, line=dfn.lineno, func='_decode_fast_message',
+                      expected='nothing before the last frame, then exactly one delivery of payload[0..L-1]; record deleted', found=found)
+    return n
 
 def _c(chk, seen, ok, rule, inst, fn, expected, found):
     chk.check(ok, rule, f"_encode_fast_message@{inst}", file=ENC, line=fn.lineno, func='_encode_fast_message', expected=expected, found=found)
